@@ -69,3 +69,7 @@ package node
 //@   ensures result != nil && c08created && !c08delok ==> c08id in node.Status.NetworkInterfaces && node.Status.NetworkInterfaces[c08id].Status == "Deleting"
 //@   # success: the interface was created and is not rolled back
 //@   ensures result == nil ==> c08created && !c08delcalled
+
+//@ # ---- per-interface address quota: what assignEniWithOptions plans for one interface fits the per-adapter limit ----
+//@ guard store eniOptions.addIPv4N in assignEniWithOptions: (node.Spec.NodeCap.IPv4PerAdapter >= 0 ==> value >= 0) && (target.eniRef != nil ==> len(target.eniRef.IPv4) + value <= node.Spec.NodeCap.IPv4PerAdapter) && (target.eniRef == nil ==> value <= node.Spec.NodeCap.IPv4PerAdapter)
+//@ guard store eniOptions.addIPv6N in assignEniWithOptions: (node.Spec.NodeCap.IPv6PerAdapter >= 0 ==> value >= 0) && (target.eniRef != nil ==> len(target.eniRef.IPv6) + value <= node.Spec.NodeCap.IPv6PerAdapter) && (target.eniRef == nil ==> value <= node.Spec.NodeCap.IPv6PerAdapter)
